@@ -195,6 +195,31 @@ func (act *activation) call(a *alt, ins ssa.Instruction, c *ssa.CallCommon, defe
 			key = load.ObjKey(fn.Object().(*types.Func))
 		}
 	}
+	// slices.IndexFunc(xs, pred) / slices.ContainsFunc(xs, pred) with a predicate we can interpret: the call is
+	// modelled as the loop it stands for — either nothing is found (-1 / false), or the result is an index i
+	// (named by the call itself) with pred(xs[i]) holding. Dependencies have no bodies here, and kept opaque the
+	// call would hide the predicate, which is all the content of such a search.
+	var searchCt term.ID
+	searchContains := false
+	if fn != nil && !c.IsInvoke() && len(args) == 2 && resultVal != nil && (key == "slices.IndexFunc" || key == "slices.ContainsFunc") {
+		ft := args[1]
+		op := T.Op(ft)
+		var pf *ssa.Function
+		var pfvs []term.ID
+		switch {
+		case strings.HasPrefix(op, "closure:"):
+			pf, pfvs = e.closures[op[8:]], T.Args(ft)
+		case strings.HasPrefix(op, "fn:"):
+			pf = e.closures[op[3:]]
+		}
+		if pf != nil && e.inScope(pf) && act.depth < e.MaxDepth && !e.onStack(pf) && !e.NoInline(load.FuncKey(pf)) {
+			searchCt = T.Mk("call:"+key, args...)
+			searchContains = key == "slices.ContainsFunc"
+			fn, fvs, key = pf, pfvs, load.FuncKey(pf)
+			args = []term.ID{T.Mk("index", args[0], searchCt)}
+			nres = 1
+		}
+	}
 	inline := fn != nil && e.inScope(fn) && act.depth < e.MaxDepth && !e.onStack(fn) && !e.NoInline(key)
 	if fn != nil && e.inScope(fn) && !inline && !e.NoInline(key) {
 		e.warn("not inlined (depth/recursion): " + key)
@@ -372,6 +397,11 @@ func (act *activation) call(a *alt, ins ssa.Instruction, c *ssa.CallCommon, defe
 				vals[j] = rt
 			default:
 				vals[j] = structured
+				// the return alternatives disagree on this result, so it is named by the call; what this
+				// alternative returned is kept as an equality valid on this path class (matching is modulo it)
+				if disagree[j] {
+					n.atoms = n.atoms.Add(T.Mk("is", structured, rt))
+				}
 			}
 			// a boolean result known on this path class becomes a fact about the call
 			if isBool(sigRes.At(j).Type()) && (rt == e.trueT || rt == e.falseT) {
@@ -405,6 +435,37 @@ func (act *activation) call(a *alt, ins ssa.Instruction, c *ssa.CallCommon, defe
 			}
 		}
 		out = append(out, n)
+	}
+	if searchCt != 0 {
+		// found: keep the predicate's path classes on which it holds; not found: the caller's state unchanged
+		nf := a.clone()
+		found := e.trueT
+		if searchContains {
+			nf.frame[resultVal] = e.falseT
+			nf.atoms = nf.atoms.Add(T.Mk("F", searchCt))
+		} else {
+			nf.frame[resultVal] = T.Mk("-1")
+			found = searchCt
+		}
+		res := []*alt{nf}
+		for _, n := range out {
+			v := n.frame[resultVal]
+			if v == e.falseT || e.decide(n, v) == -1 {
+				continue
+			}
+			if v != e.trueT {
+				pos, _ := e.atomsOf(v)
+				for _, p := range pos {
+					n.atoms = n.atoms.Add(p)
+				}
+			}
+			if searchContains {
+				n.atoms = n.atoms.Add(T.Mk("T", searchCt))
+			}
+			n.frame[resultVal] = found
+			res = append(res, n)
+		}
+		return res
 	}
 	return out
 }
